@@ -251,7 +251,7 @@ def _run_decide(job):
             for k in ta:
                 if k not in job["tie"] and k in tb:
                     ctx.solver.add(ta[k] == tb[k])
-        exists = fresh_bool("exists")
+        exists = fresh_bool("file_exists")
         fa, fb = c18._fields(A), c18._fields(B)
         fa_n, fb_n = _fields_no_n(A), _fields_no_n(B)
         flags = dict(job["flags"])
@@ -299,7 +299,7 @@ def _replay_decide(job, inputs, notes):
     B.name = A.name
     if job["fb"] == "cgm":
         B.applied_filters = list(B.applied_filters) + copy.deepcopy(_CGM)
-    exists = bool(inputs.get("exists", False))
+    exists = bool(inputs.get("file_exists", False))
     fa, fb = c18._fields(A), c18._fields(B)
     fa_n, fb_n = _fields_no_n(A), _fields_no_n(B)
     eq = _j(fa_n) == _j(fb_n)
